@@ -72,7 +72,7 @@ type FreshResult struct {
 	fn       *ssa.Function
 	escaped  map[ssa.Value]bool
 	at       map[ssa.Instruction]freshState // state before the instruction
-	loadedOK map[ssa.Value]bool            // loads of fields of tracked objects that were fresh at load time
+	loadedOK map[ssa.Value]bool             // loads of fields of tracked objects that were fresh at load time
 	retState []freshState
 	rets     []*ssa.Return
 }
